@@ -5,6 +5,7 @@ import math
 import os
 from fractions import Fraction
 
+import warnings
 import numpy as np
 import pandas as pd
 
@@ -28,6 +29,18 @@ SHOWN = [0]
 
 def sidecar():
     return {s['name']: s for s in json.load(open(os.path.join(COQ, 'gen', 'sidecar.json')))['calc']}
+
+
+def as_scalar_type(tab, i):
+    """the counts as they arrive from a typed column or array: python int, numpy int64 / int32 / int16 (when they fit), float"""
+    if not all(float(x) == int(x) for x in tab):
+        return tab, 'float'
+    m = max(int(x) for x in tab)
+    kinds = ['python', 'int64', 'int32', 'int16' if m < 32000 else 'int32', 'float64', 'uint8' if m < 256 else 'int32']
+    k = kinds[i % len(kinds)]
+    if k == 'python':
+        return tuple(int(x) for x in tab), k
+    return tuple(getattr(np, k)(int(x)) for x in tab), k
 
 
 def call_counts(tab, alpha):
@@ -98,7 +111,11 @@ def count_part(ctx, fails):
     impl, exprs = [], []
     for i, t in enumerate(tabs):
         alpha = ALPHAS[i % len(ALPHAS)]
-        im = call_counts(t, alpha)
+        targ, tk = as_scalar_type(t, i)
+        ctx.count('count arguments passed as:' + tk)
+        with warnings.catch_warnings():
+            warnings.simplefilter('ignore')
+            im = call_counts(targ, alpha)
         impl.append((t, alpha, im))
         q = ' '.join(qlit(x) for x in t)
         twin = '(@nil (list (list Z)))'
